@@ -678,7 +678,8 @@ func (e *Exec) trCall(x *SCall, env *SpecEnv) TV {
 		if w.T.Sort != SBV64 {
 			e.specFail("bit() of a non-word")
 		}
-		return TV{Not(Eq(mk(SBV64, "bvand", mk(SBV64, "bvlshr", w.T, e.shamt(k.T)), BVLit(1)), BVLit(0))), specBoolT}
+		e.needBitLib()
+		return TV{mk(SBool, "bitU", w.T, k.T), specBoolT}
 	case "popcnt":
 		argn(1)
 		w := e.tr(x.Args[0], env)
@@ -828,17 +829,7 @@ func (e *Exec) trCall(x *SCall, env *SpecEnv) TV {
 	return out
 }
 
-func (e *Exec) needPopcnt() {
-	if e.declared["ax:popcnt"] {
-		return
-	}
-	e.mark("ax:popcnt")
-	e.globalAxiom("(assert (forall ((w (_ BitVec 64))) (! (and (<= 0 (popcnt w)) (<= (popcnt w) 64)) :pattern ((popcnt w)))))")
-	e.globalAxiom("(assert (= (popcnt #x0000000000000000) 0))")
-	e.globalAxiom("(assert (= (popcnt #xffffffffffffffff) 64))")
-	e.globalAxiom("(assert (forall ((w (_ BitVec 64))) (! (= (= (popcnt w) 0) (= w #x0000000000000000)) :pattern ((popcnt w)))))")
-	e.note("axiom", "popcnt: 0<=popcnt(w)<=64, popcnt(0)=0, popcnt(~0)=64, popcnt(w)=0 <=> w=0 (lemma library, re-proved per bit by `rvc lemmas`)")
-}
+func (e *Exec) needPopcnt() { e.needBitLib() }
 
 // recursiveSpecCall: a recursive spec function becomes an SMT define-fun-rec whose extra
 // parameters are the heap maps its body reads.
@@ -888,7 +879,17 @@ func (e *Exec) recursiveSpecCall(sf *SpecFunc, args []TV, env *SpecEnv) TV {
 		// recursive occurrences pass the heap formals through
 		txt := body.T.S
 		txt = rewriteSelfCalls(txt, name, hargs)
-		e.rawDecl("recfun:"+name, fmt.Sprintf("(define-fun-rec %s (%s) %s %s)", name, strings.Join(formals, " "), rsort, txt))
+		if sf.Opaque && !e.revealOpaque {
+			// opaque: VCs only see the function through lemmas (no unfolding by the solver)
+			var sorts []string
+			for _, f := range formals {
+				f = strings.TrimSuffix(strings.TrimPrefix(f, "("), ")")
+				sorts = append(sorts, f[strings.IndexByte(f, ' ')+1:])
+			}
+			e.rawDecl("recfun:"+name, fmt.Sprintf("(declare-fun %s (%s) %s)", name, strings.Join(sorts, " "), rsort))
+		} else {
+			e.rawDecl("recfun:"+name, fmt.Sprintf("(define-fun-rec %s (%s) %s %s)", name, strings.Join(formals, " "), rsort, txt))
+		}
 	}
 	ts := make([]Term, 0, len(args)+len(keys))
 	for _, a := range args {
